@@ -155,6 +155,9 @@ func vRunDialControlled(sc *vDialScenario) ([]vOutEvent, map[string]interface{})
 		if a := s.lookup(vGID()); a != nil {
 			g = a.name
 		}
+		if g != "env" && s.dead() {
+			return // released after the scheduler stopped: not part of the recorded execution
+		}
 		mu.Lock()
 		out = append(out, vOutEvent{E: e, G: g, K: k, N: n, M: m, Err: err})
 		mu.Unlock()
@@ -340,9 +343,11 @@ func vRunDialControlled(sc *vDialScenario) ([]vOutEvent, map[string]interface{})
 		if derr != nil && kinds[len(kinds)-1] == "drop" && atomic.LoadInt32(&pdWaits) > 0 && vLastAttempt(out) == len(kinds) {
 			waited = "waited"
 		}
-		mu.Lock()
-		out = append(out, vOutEvent{E: "DialRet", G: "dialer", K: e, N: has, M: to, Err: waited})
-		mu.Unlock()
+		if !s.dead() {
+			mu.Lock()
+			out = append(out, vOutEvent{E: "DialRet", G: "dialer", K: e, N: has, M: to, Err: waited})
+			mu.Unlock()
+		}
 		if conn != nil {
 			conn.Close()
 		}
